@@ -497,6 +497,9 @@ fn gen_bridge(mut input: ItemMod) -> ItemMod {
         }
 
         Item::Impl(i) => {
+            // `#[diplomat::attr]`, `#[diplomat::abi_rename]` etc. are also allowed on impl blocks
+            // (they are inherited by the methods inside); strip them like everywhere else.
+            let _attrs = AttributeInfo::extract(&mut i.attrs);
             for item in &mut i.items {
                 if let syn::ImplItem::Fn(ref mut m) = *item {
                     let info = AttributeInfo::extract(&mut m.attrs);
